@@ -243,6 +243,10 @@ class RPCReplyListener(SessionListener): # internal use
         if self._device_handler.perform_qualify_check():
             if tag != qualify("rpc-reply"):
                 return
+        elif etree.QName(tag).localname != "rpc-reply":
+            # devices exempt from the namespace check still only answer with
+            # <rpc-reply>; notifications and the like are not for us
+            return
         if "message-id" not in attrs:
             # required attribute so raise OperationError
             raise OperationError("Could not find 'message-id' attribute in <rpc-reply>")
